@@ -44,6 +44,10 @@ def _scenarios(quick, seed, workdir):
         mode = k % 4
         if mode == 1:      # a caller mapping that describes the first mapped file: exactly its merged extent, or (every other time) its first three pages
             w["user_mappings"] = [{"start": {"file_map": 0, "off": 0}, "size": "group" if (k // 4) % 2 == 0 else 0x3000, "name": "/caller/provided name.so", "id_hex": "aabbccddeeff00112233445566778899"}]
+            if (k // 4) % 3 != 1:
+                # several caller mappings, in ascending and in descending order: one far below everything, one that contains a module
+                low = {"start": "0x10000", "size": 0x2000, "name": "/caller/low.so", "id_hex": "02" * 16}
+                w["user_mappings"] = [low] + w["user_mappings"] if (k // 4) % 3 == 0 else w["user_mappings"] + [low]
         if mode == 2:      # the entry point lies in the second mapped file
             w["direct_auxv"] = {"entry": {"file_map": min(1, len(files) - 1), "off": 0x100}}
         if mode == 3:      # a caller mapping elsewhere (suppresses nothing)
